@@ -19,4 +19,5 @@ def run(F, rep):
     rep.run(dt_seq.dnastring_view_ctors, F, rep, "C15.4")
     rep.run(dt_seq.slice_renderers, F, rep, "C15.1")
     rep.run(lemmas.slice_exact_lemmas, F, rep, "C15.1", quick=(rep.tier != "thorough"))
+    rep.run(lemmas.slice_getkmer_lemmas, F, rep, "C15.1", quick=(rep.tier != "thorough"))
     rep.run(dt_seq.hamming_dist_table, F, rep, "C15.2")
